@@ -259,8 +259,8 @@ func meet(a, b *bstate) *bstate {
 		if bases[1] == nil {
 			bases[1] = b.basis(lin{})
 		}
-		ca, oka, _ := bases[0].bound(L, 2)
-		cb, okb, _ := bases[1].bound(L, 2)
+		ca, oka, _ := bases[0].bound(L, 3)
+		cb, okb, _ := bases[1].bound(L, 3)
 		if oka && okb {
 			g := lin{t: L.t, c: ca}
 			if cb < ca {
